@@ -391,7 +391,7 @@ def run(ctx):
                        'Failure-class status is accepted, but the request must be answered',
                        'storage commitment requests use the well-known SOP instance 1.2.840.10008.1.20.1.1',
                        'provider replaced by vf/fakedul.py; the C-GET user side is covered by C19']
-    n = 2500 if ctx.thorough else 60
+    n = 2500 if ctx.thorough else 250
     parallel(ctx, run_family, [{'family': f, 'n': n} for f in sorted(FAMILIES)])
 
 
